@@ -46,11 +46,12 @@ def norm_errors(errors, sub):
 def check_case(case):
     out = core.Outcome()
     meta = case.get('meta', {})
-    a = observe.run_validator(case['text_ref'], ack=True)
-    b = observe.run_validator(case['text_alt'], ack=True)
+    cs = case.get('charset') or 'E'
+    a = observe.run_validator(case['text_ref'], ack=True, charset=cs)
+    b = observe.run_validator(case['text_alt'], ack=True, charset=cs)
     dl = case['delims']
     ndiff = sum(1 for x, y in zip(dl[:3], '~*:') if x != y)
-    out.classes = ['map:' + meta.get('file', '?'), 'layout:' + repr(case.get('eol')), 'faults:%d' % len(meta.get('faults', []))]
+    out.classes = ['map:' + meta.get('file', '?'), 'layout:' + repr(case.get('eol')), 'faults:%d' % len(meta.get('faults', [])), 'charset:' + cs]
     if meta.get('aligned'):
         out.classes.append('terminator-on-buffer-edge')
     if 'junk-segment' in meta.get('faults', []):
@@ -97,13 +98,21 @@ def draw_delims(ch, icvn):
     return term, ele, sub, rep
 
 
-def run_entry(entry, n, seed, acc, tier):
+def run_entry(entry, n, seed, acc, tier, rot=0):
     from hypothesis import strategies as st
 
     @st.composite
     def case(draw):
         ch = docgen.HypChooser(draw)
         dl = draw_delims(ch, entry['icvn'])
+        # basic character set only for 00401 (under 00501 the reference repetition separator '^' is itself not a basic character)
+        # Hypothesis' first example takes the first alternative everywhere: rotate the list per shard so that the first
+        # validation of a process is not always made under charset E
+        order = [['E', 'E', 'B'], ['B', 'E', 'E'], ['E', 'B', 'E']][rot % 3]
+        charset = ch.choice(order) if entry['icvn'] == '00401' else 'E'
+        if charset == 'B' and dl[2] not in '!"&\'()*+,-./:;?=':
+            # under the basic character set the component separator (data of ISA16) must be a basic character
+            dl = (dl[0], dl[1], ch.choice([c for c in '!&+,/;?=' if c not in (dl[0], dl[1], dl[3])]), dl[3])
         res = genfaulty.build(entry, ch, acc, avoid='~*:^' + ''.join(dl), flavor='punct', envelope=.2, malformed=.15, big=.35)
         if res is None:
             return {'skip': 'genfail'}
@@ -118,7 +127,7 @@ def run_entry(entry, n, seed, acc, tier):
             if hit:
                 meta['aligned'] = hit
         return {'text_ref': doc.text(), 'text_alt': doc.text(term=dl[0], ele=dl[1], sub=dl[2], rep=dl[3], eol=eol),
-                'delims': list(dl), 'eol': eol, 'meta': meta}
+                'delims': list(dl), 'eol': eol, 'charset': charset, 'meta': meta}
 
     def chk(c):
         if 'skip' in c:
@@ -178,5 +187,5 @@ def run_shard(spec, seed, tier):
     if spec['kind'] == 'fixtures':
         run_fixtures(acc, seed)
     else:
-        run_entry(spec['entry'], spec['n'], seed * 1000 + spec['i'], acc, tier)
+        run_entry(spec['entry'], spec['n'], seed * 1000 + spec['i'], acc, tier, rot=spec['i'] + seed)
     return acc
